@@ -23,7 +23,7 @@ RULE = (
 ASSUMPTIONS = ["the capture helper and the uberjob call are on one source line (same f_lineno)", "depth limit read from uberjob._util.traceback.MAX_TRACEBACK_DEPTH"]
 
 MODNAMES = ["gen_builder", "uberjob_pipelines", "uberjobx.build", "my.uberjob.jobs", "__main__"]
-KINDS = ["call_in_genexpr", "nested_callerror", "src_read_shared", "call", "gather_explicit", "gather_implicit", "unpack", "reg_write", "reg_readback", "src_read", "src_noreg", "mtime_stored", "mtime_source",
+KINDS = ["unpack_nested_gather", "call_in_genexpr", "nested_callerror", "src_read_shared", "call", "gather_explicit", "gather_implicit", "unpack", "reg_write", "reg_readback", "src_read", "src_noreg", "mtime_stored", "mtime_source",
          "gather_nested_set", "gather_nested_dictkey", "gather_nested_implicit", "gather_nested_deep"]
 
 
@@ -56,6 +56,8 @@ CREATE = {
     "gather_nested_deep": "a = plan.call(K.mklist)\n{ind}here('X'); node = plan.gather({{'p': [({{a}},)], 'q': 1}}); K.out = node",
     # one store object sourced on two different lines; the run depends on the SECOND: a failed read belongs to that line
     "src_read_shared": "K.shared = K.BadRead(present=True); s0 = registry.source(plan, K.shared)\n{ind}here('X'); s = registry.source(plan, K.shared)\n{ind}y = plan.call(K.ident, s); K.out = y",
+    # the iterable handed to unpack is a plain container holding nodes: the gather calls made for it belong to the unpack line as well
+    "unpack_nested_gather": "a = plan.call(K.mklist)\n{ind}here('X'); u = plan.unpack([{{a}}, 1], 2); K.out = u[0]",
     "unpack": "a = plan.call(K.mk2)\n{ind}here('X'); u = plan.unpack(a, 3); K.out = u[0]",
     "reg_write": "x = plan.call(K.ok)\n{ind}here('X'); registry.add(x, K.BadWrite()); K.out = None",
     "reg_readback": "x = plan.call(K.ok)\n{ind}here('X'); registry.add(x, K.BadRead())\n{ind}y = plan.call(K.ident, x); K.out = y",
@@ -241,7 +243,7 @@ def run_case(desc):
                 break
             got.append((sf.name, sf.path, sf.line))
             sf = sf.outer
-        expected_fn = {"call_in_genexpr": "boom", "nested_callerror": "boom_callerror", "src_read_shared": "read", "gather_nested_set": "gather_set", "gather_nested_dictkey": "gather_dict", "gather_nested_implicit": "gather_set", "gather_nested_deep": "gather_set",
+        expected_fn = {"unpack_nested_gather": "gather_set", "call_in_genexpr": "boom", "nested_callerror": "boom_callerror", "src_read_shared": "read", "gather_nested_set": "gather_set", "gather_nested_dictkey": "gather_dict", "gather_nested_implicit": "gather_set", "gather_nested_deep": "gather_set",
                        "call": "boom", "gather_explicit": "gather_set", "gather_implicit": "gather_set", "unpack": "unpack", "reg_write": "write",
                        "reg_readback": "read", "src_read": "read", "src_noreg": "source", "mtime_stored": "ok", "mtime_source": "source"}[desc["kind"]]
         if getattr(call.fn, "__name__", None) != expected_fn:
